@@ -447,25 +447,36 @@ def run_lian(case, settings, sub_command="run", quiet=False):
     import lian.core.global_semantics as gs
     base = tempfile.mkdtemp(prefix="c20-", dir=lianrun.scratch_dir())
     roots = []
+    per_root = []           # [root method id, [ids of the frames initialised while this root was analysed]]
     orig = gs.P3GlobalSemanticAnalysis.init_frame_stack
+    orig_frame = gs.P3GlobalSemanticAnalysis.init_compute_frame
 
     def rec_init(self, entry_method_id, *a, **k):
         roots.append(int(entry_method_id))
+        per_root.append([int(entry_method_id), []])
         return orig(self, entry_method_id, *a, **k)
+
+    def rec_frame(self, frame, *a, **k):
+        if per_root:
+            per_root[-1][1].append(int(frame.method_id))
+        return orig_frame(self, frame, *a, **k)
     obs = {"base": base}
     res = None
     try:
         sd = model.write_settings_dir(os.path.join(base, "settings"), settings)
         gs.P3GlobalSemanticAnalysis.init_frame_stack = rec_init
+        gs.P3GlobalSemanticAnalysis.init_compute_frame = rec_frame
         try:
             res = lianrun.analyze(case["files"], settings_dir=sd, lang=case["langs"], sub_command=sub_command,
                                   workdir=base, quiet=quiet)
         finally:
             gs.P3GlobalSemanticAnalysis.init_frame_stack = orig
+            gs.P3GlobalSemanticAnalysis.init_compute_frame = orig_frame
         obs["exc"] = res.exc
         obs["stdout"] = res.stdout
         obs["stderr"] = res.stderr
         obs["roots"] = roots
+        obs["per_root"] = per_root
         obs["prefix"] = os.path.join(base, "ws", "lian_workspace", "src", "in")
         if res.loader is None:
             return obs
@@ -708,6 +719,20 @@ def check_case(case, col=None):
     if unreached:
         out.append(((ID, "reach", "callee-not-analysed", by_mid[unreached[0]]["kind"]),
                     "reachable by construction but never analysed: %s (entries %s)" % (fmt(unreached), fmt(basis_E))))
+    # every selected entry sees what is reachable from it: the frames initialised while root r is analysed cover the
+    # by-construction closure of r (not only the union over all roots)
+    if not unreached and not not_an:
+        for r_sid, frames in obs.get("per_root", []):
+            r = sid_to_mid.get(r_sid)
+            if r is None or r not in basis_E:
+                continue
+            seen = {sid_to_mid.get(x, -x) for x in frames}
+            lost = [x for x in model.reachable(rcase, {r}) if x not in seen and x != r]
+            if lost:
+                out.append(((ID, "reach", "callee-not-analysed-under-entry", by_mid[lost[0]]["kind"]),
+                            "reachable from entry %s by construction but not analysed while that entry was analysed: %s "
+                            "(entries in order %s)" % (name_of(r), fmt(lost), [name_of(sid_to_mid[x]) for x in roots if x in sid_to_mid])))
+                break
     bad_first = [x for x in obs["path_roots"] if sid_to_mid.get(x) not in basis_E]
     if bad_first:
         out.append(((ID, "call-paths", "path-starts-outside-entries"),
